@@ -2,6 +2,7 @@ package flow
 
 import (
 	"fmt"
+	"go/constant"
 	"go/token"
 	"go/types"
 	"strings"
@@ -70,6 +71,37 @@ func rootParam(v ssa.Value) *ssa.Parameter {
 				p = q
 			}
 			return p
+		case *ssa.UnOp:
+			// a parameter that a closure captures (or whose address is taken) lives in a cell: a load of that cell
+			// is the parameter if everything the function stores there is the parameter or a part of it
+			al, ok := x.X.(*ssa.Alloc)
+			if !ok || x.Op != token.MUL || al.Referrers() == nil {
+				return nil
+			}
+			var p *ssa.Parameter
+			for _, r := range *al.Referrers() {
+				st, ok := r.(*ssa.Store)
+				if !ok || st.Addr != ssa.Value(al) {
+					continue
+				}
+				if ld, isLd := st.Val.(*ssa.UnOp); isLd && ld.X == ssa.Value(al) {
+					continue
+				}
+				var q *ssa.Parameter
+				if sl, isSl := st.Val.(*ssa.Slice); isSl {
+					if ld, isLd := sl.X.(*ssa.UnOp); isLd && ld.X == ssa.Value(al) {
+						continue // the cell re-sliced in place (input = input[1:])
+					}
+					q = rootParam(sl.X)
+				} else {
+					q = rootParam(st.Val)
+				}
+				if q == nil || (p != nil && p != q) {
+					return nil
+				}
+				p = q
+			}
+			return p
 		default:
 			return nil
 		}
@@ -83,8 +115,8 @@ func (c *Ctx) findGuard(fn *ssa.Function, input *ssa.Parameter) *guardInfo {
 		if !ok {
 			continue
 		}
-		cmp, ok := iff.Cond.(*ssa.BinOp)
-		if !ok {
+		cmp := condCmp(iff.Cond)
+		if cmp == nil {
 			continue
 		}
 		var lenSide ssa.Value
@@ -1095,8 +1127,8 @@ func (c *Ctx) RuleSentinelOnlyInGuards(sentinel *ssa.Global, fns []*ssa.Function
 			if !ok {
 				continue
 			}
-			cmp, ok := iff.Cond.(*ssa.BinOp)
-			if !ok {
+			cmp := condCmp(iff.Cond)
+			if cmp == nil {
 				continue
 			}
 			gx, gy := globalLoad(cmp.X), globalLoad(cmp.Y)
@@ -1238,4 +1270,22 @@ func isJSONObjectKey(fn *ssa.Function, ta *ssa.TypeAssert) bool {
 		}
 	}
 	return false
+}
+
+// condCmp: the comparison a branch condition stands for: the comparison itself, or, for `a && cmp` kept as a value
+// (a case of a tagless switch, a local variable) — phi(false, cmp) — the comparison that must hold on the true edge.
+func condCmp(cond ssa.Value) *ssa.BinOp {
+	if bo, ok := cond.(*ssa.BinOp); ok {
+		return bo
+	}
+	if ph, ok := cond.(*ssa.Phi); ok && len(ph.Edges) == 2 {
+		for k, ed := range ph.Edges {
+			if c, isC := ph.Edges[1-k].(*ssa.Const); isC && c.Value != nil && c.Value.Kind() == constant.Bool && !constant.BoolVal(c.Value) {
+				if bo, ok := ed.(*ssa.BinOp); ok {
+					return bo
+				}
+			}
+		}
+	}
+	return nil
 }
